@@ -8,7 +8,10 @@ equation data assembled from the implementation's own operators (calcM, calcG, b
 its (udot, lambda); the extracted certificate checker (coq/C08/C08_Model.v, OCaml float NumOps) evaluates the residuals of both
 equation blocks and the constraint power; they must vanish within tolerance, and so must the implementation's own reports
 (getUDotErr, calcResidualForce, calcConstraintPower for workless sets with uerr = 0); the masked system must equal the system
-rebuilt without the disabled constraints.
+rebuilt without the disabled constraints.  Enable/disable is exercised as a HISTORY on one state (defaults incl. setDisabledByDefault,
+0..6 interleaved enable/disable/setConstraintIsDisabled requests per constraint biased towards toggling back to the default, realizations
+in between); the reported flags must equal the extracted model's disabled_after (= the last request) and all predicates are applied to the
+final enabled set.
 Per-constraint entry points (anchor "calcConstraintPower / Constraint::calcPower" and the accessors C07/C08 rely on), every run:
 sum of Constraint::calcPower = calcConstraintPower = -(dot(F,V)+dot(f,u)) of findConstraintForces; each calcPower = power of the
 constraint's own getConstrainedBodyForcesAsVector / getConstrainedMobilityForcesAsVector = -lambda_c.(G_c u) (model); workless kinds
@@ -22,17 +25,24 @@ from vlib import *
 PROPS = ['Props/Properties_C08.v', 'Props/Properties_C08b.v']
 EXTRACT = '''From Coq Require Import Extraction ExtrOcamlBasic.
 Require Import Num C08_Model.
-Extraction "c08model.ml" kkt_dyn_residual kkt_con_residual constraint_power.
+Extraction "c08model.ml" kkt_dyn_residual kkt_con_residual constraint_power disabled_after mask_after.
 '''
 TOL = 1e-8          # relative to the size of the terms of each equation (the pseudo-inverse solve loses a few digits on redundant sets)
 CONSIST = 1e-9      # a case is judged only if its enabled acceleration equations are consistent to this (least squares)
 
+FLAGCASES = []
 def parse(out):
-    cases = []; cur = None; skipped = 0
+    cases = []; cur = None; skipped = 0; flags = []; pre = None
     for line in out.split('\n'):
         t = line.split()
         if not t: continue
+        if t[0] == 'PRE': pre = t[1]; flags = []
+        elif t[0] == 'FLAG':
+            flags.append({'i': int(t[1]), 'default': int(t[2]), 'isDisabled': int(t[3]), 'isConstraintDisabled': int(t[4]), 'hist': [int(x) for x in t[6:]], 'line': line})
+        elif t[0] == 'FLAGMISMATCH':
+            FLAGCASES.append({'id': pre, 'flags': flags, 'mismatch': True, 'line': line}); flags = []
         if t[0] == 'CASE':
+            FLAGCASES.append({'id': t[1], 'flags': flags, 'mismatch': False, 'line': line}); flags = []
             cur = {'id': t[1], 'onman': int(t[3]), 'nu': int(t[5]), 'mAll': int(t[7]), 'mA': int(t[9]), 'rank': int(t[11]), 'consistency': float(t[13]),
                    'workless': int(t[15]), 'nspecs': int(t[17]), 'kinds': t[19:], 'head': line, 'M': [], 'G': [], 'mask': [], 'out': {}, 'pcon': []}
         elif t[0] == 'SKIP': skipped += 1; cur = None
@@ -150,6 +160,26 @@ def certificate(ctx, exes, ncases, seed_offset=0):
         if t and t[0] == 'MODEL':
             body = ' '.join(t[2:]); parts = [p.split() for p in body.split('|')]
             models[t[1]] = {p[0]: parse_floats(' '.join(p[1:])) for p in parts if p}
+    # enable/disable histories: the flag the state reports must be the model's (= the last request), through both accessors
+    mflag = {}
+    for l in mout.split('\n'):
+        t = l.split()
+        if t and t[0] == 'MFLAG': mflag[(t[1], int(t[2]))] = int(t[3])
+    nflag = 0; nhist = 0; flagbad = []
+    for fc in FLAGCASES:
+        for f in fc['flags']:
+            nflag += 1; nhist += len(f['hist']) > 1
+            want = mflag.get((fc['id'], f['i']))
+            if want is None or f['isDisabled'] != want or f['isConstraintDisabled'] != want: flagbad.append((fc, f, want))
+    del FLAGCASES[:]
+    ef = ctx.extra.setdefault('enable_disable', {'flags_checked': 0, 'with_history_of_2_or_more_requests': 0, 'mismatches': 0})
+    ef['flags_checked'] += nflag; ef['with_history_of_2_or_more_requests'] += nhist; ef['mismatches'] += len(flagbad)
+    if flagbad:
+        fc, f, want = flagbad[0]
+        ctx.broken.append(('enable-disable:flag', 'isDisabled(state) is not the last request: case %s constraint %d default %d requests %s (1 = disable): reported %d/%d, model %s (%d mismatches)' %
+                           (fc['id'], f['i'], f['default'], f['hist'], f['isDisabled'], f['isConstraintDisabled'], want, len(flagbad))))
+        ctx.report('impl:enable-disable-history', 'C08: after the enable/disable requests %s (1 = disable) on one state, a constraint with isDisabledByDefault = %d reports isDisabled = %d; the last request says %s' %
+                   (f['hist'], f['default'], f['isDisabled'], want), {'replay_cmd': '%s %d %d' % (exe, ctx.seed + seed_offset, ncases), 'case': fc['id'], 'flag_line': f['line']})
     if len(models) != len(cases):
         ctx.broken.append(('ocaml:C08_drv', 'driver produced %d results for %d cases %s' % (len(models), len(cases), err[-300:]))); return
     judged = 0; incons = 0; fails = []; hist = collections.Counter(); worst = collections.defaultdict(float); nred = 0; nmask = 0; va_findings = []; npc = 0
